@@ -17,6 +17,10 @@ package main
 //                 (call-next-method) without arguments; every method reports its bindings
 //   whopper       flavors: a whopper with the lambda list calls (continue-whopper a1' …), the primary
 //                 method has the same lambda list
+//   defun3, funcall3, flavor3, clos3
+//                 three calls of the SAME function / lambda object / flavors method / CLOS method in one
+//                 form, (list (F V) (F V') (F V)): nothing a call leaves behind (a cached default or
+//                 initial form, a count, a binding) may change the next call
 //
 // Multi-call contexts yield one outcome per call; each is judged against the model outcome of the
 // argument vector that call must see (model entry `ll chain` for the method chains).
@@ -30,7 +34,8 @@ import (
 	"verif/harness/lib"
 )
 
-var c04MoreContexts = []string{"mvcall", "apply-spread", "flavor", "clos", "mapcar2", "map2", "around", "whopper"}
+var c04MoreContexts = []string{"mvcall", "apply-spread", "flavor", "clos", "mapcar2", "map2", "around", "whopper",
+	"defun3", "funcall3", "flavor3", "clos3"}
 
 // c04Shift: the second argument vector of the multi-call contexts: every integer + 1000, the rest
 // (keywords, strings, nil, lists) unchanged, so that the key structure and the verdict are the same
@@ -56,10 +61,19 @@ func c04MultiCalls(ctx string) int {
 	switch ctx {
 	case "mapcar2", "map2", "whopper":
 		return 2
-	case "around":
+	case "around", "defun3", "funcall3", "flavor3", "clos3":
 		return 3
 	}
 	return 1
+}
+
+// c04CallShifted: does the j-th observed call of the context see the shifted vector V' (else V)?
+func c04CallShifted(ctx string, j int) bool {
+	switch ctx {
+	case "defun3", "funcall3", "flavor3", "clos3":
+		return j == 1
+	}
+	return j > 0
 }
 
 // c04CtxApplies: can the case be expressed in the context?
@@ -69,7 +83,7 @@ func c04CtxApplies(sh c04Shape, args []c04Arg, ctx string) bool {
 		return c04SelfEvaluating(args)
 	case "mapcar2", "map2":
 		return len(args) >= 1
-	case "clos":
+	case "clos", "clos3":
 		// a method without required parameter cannot be defined (defmethod needs one to dispatch on)
 		return len(sh.req) >= 1
 	case "around":
@@ -81,7 +95,7 @@ func c04CtxApplies(sh c04Shape, args []c04Arg, ctx string) bool {
 
 // expected argument vector of the j-th observed call
 func c04CallArgs(ctx string, args []c04Arg, j int) []c04Arg {
-	if j == 0 {
+	if !c04CallShifted(ctx, j) {
 		return args
 	}
 	return c04Shift(args)
@@ -128,10 +142,10 @@ func (r *c04Runner) formMore(sh c04Shape, args []c04Arg, ctx string) (setup, for
 	}
 	r.lastDefs = ""
 	const flavorDefs = "(defflavor c04fl ((c04iv :iv)) ()) (defflavor c04wf ((c04iv :iv)) ()) (setq c04inst (make-instance 'c04fl)) (setq c04winst (make-instance 'c04wf)) "
-	if ctx == "flavor" || ctx == "whopper" {
+	if ctx == "flavor" || ctx == "whopper" || ctx == "flavor3" {
 		r.lastDefs = flavorDefs
 	}
-	if !r.flavorReady && (ctx == "flavor" || ctx == "whopper") {
+	if !r.flavorReady && (ctx == "flavor" || ctx == "whopper" || ctx == "flavor3") {
 		r.flavorReady = true
 		setup = "(defflavor c04fl ((c04iv :iv)) ()) (defflavor c04wf ((c04iv :iv)) ()) (setq c04inst (make-instance 'c04fl)) (setq c04winst (make-instance 'c04wf)) "
 	}
@@ -148,6 +162,24 @@ func (r *c04Runner) formMore(sh c04Shape, args []c04Arg, ctx string) (setup, for
 	case "clos":
 		n, def := r.define("clos "+ll, "(defmethod %NAME% "+c04Specialise(sh, "t")+" "+body+")")
 		return def, "(" + n + sp + al + ")"
+	case "defun3", "funcall3", "flavor3", "clos3":
+		al2 := c04ArgsLisp(c04Shift(args))
+		three := func(pre string) string {
+			return "(list (" + pre + sp + al + ") (" + pre + c04Sp(al2) + ") (" + pre + sp + al + "))"
+		}
+		switch ctx {
+		case "defun3":
+			n, def := r.define("defun3 "+ll, "(defun %NAME% "+ll+" "+body+")")
+			return def, three(n)
+		case "funcall3":
+			return "", "(let ((c04fo " + lam + ")) " + three("funcall c04fo") + ")"
+		case "flavor3":
+			n, def := r.define("flavor "+ll, "(defmethod (c04fl :%NAME%) "+ll+" "+body+")")
+			return setup + def, three("send c04inst :" + n)
+		default:
+			n, def := r.define("clos "+ll, "(defmethod %NAME% "+c04Specialise(sh, "t")+" "+body+")")
+			return def, three(n)
+		}
 	case "mapcar2", "map2":
 		v2 := c04Shift(args)
 		var lists []string
@@ -201,7 +233,7 @@ func c04GenericArity(o lib.Outcome) string {
 // c04OutcomesMore canonicalises the evaluation of a further context into one outcome per call.
 func c04OutcomesMore(sh c04Shape, ctx string, o lib.Outcome) []string {
 	if !o.Ok {
-		if a := c04GenericArity(o); a != "" && (ctx == "clos" || ctx == "around") {
+		if a := c04GenericArity(o); a != "" && (ctx == "clos" || ctx == "around" || ctx == "clos3") {
 			return []string{"err " + a}
 		}
 		return []string{c04Outcome(o)}
@@ -216,7 +248,7 @@ func c04OutcomesMore(sh c04Shape, ctx string, o lib.Outcome) []string {
 		return strings.Join(w, " ")
 	}
 	switch ctx {
-	case "mapcar2", "map2":
+	case "mapcar2", "map2", "defun3", "funcall3", "flavor3", "clos3":
 		var out []string
 		for _, e := range list {
 			l, ok := e.(slip.List)
@@ -225,7 +257,7 @@ func c04OutcomesMore(sh c04Shape, ctx string, o lib.Outcome) []string {
 			}
 			out = append(out, wires(l))
 		}
-		if len(out) != 2 {
+		if len(out) != c04MultiCalls(ctx) {
 			return []string{"ok ?" + o.Text}
 		}
 		return out
@@ -329,10 +361,30 @@ func c04Malformed(c *lib.Ctx) {
 				cells = append(cells, cell{fmt.Sprintf(def, l+b.lisp), "lambda-list malformed-element-accepted section=" + name + " element=" + b.kind})
 				reqs = append(reqs, "ll bind ("+w+b.wire+") ()", "ll impl ("+w+b.wire+") ()")
 			}
+			// the other constructors of a lambda list: flavors method and whopper (DefLambda), CLOS method
+			// (its own builder in pkg/generic; the first parameter is specialised, so the required section
+			// is left out there: `(a1 1 2)` would be read as a specialiser)
+			for _, def := range [][2]string{{"flavors-method", "(defmethod (c04badfl :bad) (%s) nil)"}, {"flavors-whopper", "(defwhopper (c04badfl :bad) (%s) nil)"},
+				{"clos-method", ""}} {
+				sig := "lambda-list malformed-element-accepted section=" + name + " element=" + b.kind + " constructor=" + def[0]
+				if def[0] == "clos-method" {
+					if sec == "" {
+						continue
+					}
+					// a generic function of its own per cell: an accepted definition must not decide the next cell
+					cells = append(cells, cell{fmt.Sprintf("(defmethod c04badg%d ((z1 t) %s %s) nil)", len(cells), sec, b.lisp), sig})
+				} else {
+					cells = append(cells, cell{fmt.Sprintf(def[1], l+b.lisp), sig})
+				}
+				reqs = append(reqs, "ll bind ("+w+b.wire+") ()", "ll impl ("+w+b.wire+") ()")
+			}
 		}
 	}
 	rep := c.Model(reqs)
 	n := 0
+	if o := lib.EvalString(slip.NewScope(), "(defflavor c04badfl () ())"); !o.Ok {
+		panic("harness bug: defflavor c04badfl: " + o.Msg)
+	}
 	for i, cl := range cells {
 		if rep[2*i] != "err badLL" || rep[2*i+1] != "err defLambda" {
 			panic("harness bug: the model accepts the malformed lambda list of " + cl.form + ": " + rep[2*i] + " / " + rep[2*i+1])
